@@ -160,7 +160,7 @@ def explore(farm, tasks, pid, timeout_ms, k, mode, skipmap=None, budget=10):
         if dbg:
             print("done %s %s root=%s left=%d err=%s" % (mode, r["qual"].split("::")[1], r.get("root"), len(r.get("leftover") or []), r.get("error")), file=sys.stderr, flush=True)
         for root in r.get("leftover") or []:
-            submit(r["qual"], r["variant"], root, 40)
+            submit(r["qual"], r["variant"], root, 12)
     return merged
 
 
@@ -169,7 +169,7 @@ def _bounded_task(t):
     try:
         _load()
         from pyvc.bounded import run_bounded
-        r = run_bounded(REGISTRY[qual], props=props, variant=variant, limit=limit, seed=seed)
+        r = run_bounded(REGISTRY[qual], props=props, variant=variant, limit=limit, seed=seed, budget_s=25 if limit <= 50 else 600)
         r["qual"] = qual
         r["variant"] = variant
         return r
@@ -199,6 +199,20 @@ def load_known():
             elif line.startswith("fixed:"):
                 fixed.append(line[len("fixed:"):].strip())
     return findings, fixed
+
+
+def _bounded_known(bad, case, my_findings, qual):
+    """A bounded-stand-in failure is a known finding when its clause and input match a listed one:
+    pattern `<function>/bounded:<clause>` and the listed input text occurs in the case."""
+    import fnmatch
+    fname = qual.split("::")[1]
+    txt = json.dumps(case.get("params", case))
+    for pat, what, f in my_findings:
+        for n, p in bad:
+            if fnmatch.fnmatchcase("%s/bounded:%s" % (fname, n), pat):
+                if not what or what.split(" :: ")[0] in txt:
+                    return f
+    return None
 
 
 def vname(q, v):
@@ -318,14 +332,32 @@ def run_property(pid, tier="quick", seed=0, extra=None):
             obligations.append(o)
             (discharged if o["status"] == "discharged" else refuted if o["status"] == "refuted" else undecided).append(o)
 
+    # ------------------------------------------------------------------ known findings first
+    import fnmatch
+    findings, fixed = load_known()
+    my_findings = []
+    for f in findings:
+        parts = f.split(None, 2)
+        if parts and parts[0] == "property=%s" % pid and len(parts) >= 2:
+            my_findings.append((parts[1], parts[2] if len(parts) > 2 else "", f))
+    known_hits = {}
+    fresh_refuted = []
+    for o in refuted:
+        hit = None
+        for pat, what, f in my_findings:
+            if fnmatch.fnmatchcase(o["name"], pat) or pat in o["name"]:
+                hit = f
+                break
+        if hit:
+            known_hits.setdefault(hit, []).append(o)
+        else:
+            fresh_refuted.append(o)
+
     # ------------------------------------------------------------------ violations: replay
     from pyvc.replay import model_to_case, run_native, evaluate
-    findings, fixed = load_known()
     violations = []
-    known_hits = []
     ridx = 0
-    seen_fn = set()
-    for o in refuted:
+    for o in fresh_refuted:
         if "function" not in o or o.get("external") or o["function"] not in REGISTRY:
             continue
         spec = REGISTRY[o["function"]]
@@ -345,58 +377,62 @@ def run_property(pid, tier="quick", seed=0, extra=None):
             # second search: bounded enumeration of small inputs on the real function
             for b in bres:
                 if b.get("qual") == o["function"] and json.dumps(b.get("variant"), sort_keys=True) == fk[1] and b.get("violations"):
-                    case, outcome, bad = b["violations"][0]
-                    failed = [n for n, p in bad]
-                    reproduced = True
-                    break
+                    for (bcase, boutcome, bad) in b["violations"]:
+                        if _bounded_known(bad, bcase, my_findings, o["function"]):
+                            continue
+                        case, outcome = bcase, boutcome
+                        failed = [n for n, p in bad]
+                        reproduced = True
+                        break
+                    if reproduced:
+                        break
         ridx += 1
         path = write_replay(pid, ridx, spec, o.get("variant"), o, case if reproduced else None, outcome if reproduced else None, failed, reproduced)
         violations.append((o, path, reproduced, case, failed))
     if ext:
         for v in ext.get("violations", []):
-            violations.append((v["obligation"], v["path"], v["reproduced"], v.get("case"), v.get("failed", [])))
+            hit = None
+            for pat, what, f in my_findings:
+                if fnmatch.fnmatchcase(v["obligation"]["name"], pat) or pat in v["obligation"]["name"]:
+                    hit = f
+            if hit:
+                known_hits.setdefault(hit, []).append(v["obligation"])
+            else:
+                violations.append((v["obligation"], v["path"], v["reproduced"], v.get("case"), v.get("failed", [])))
     # bounded stand-in violations that no obligation reported (engine miss or function out of reach)
     for b in bres:
         if b.get("error"):
             errors.append((b["qual"], b.get("variant"), "bounded: " + b["error"]))
             continue
-        if b.get("violations"):
+        for (case, outcome, bad) in b.get("violations", []):
+            hit = _bounded_known(bad, case, my_findings, b["qual"])
+            if hit:
+                known_hits.setdefault(hit, []).append(dict(name="bounded:%s" % vname(b["qual"], b.get("variant"))))
+                continue
             fk = (b["qual"], json.dumps(b.get("variant"), sort_keys=True))
             if any((v[0].get("function"), json.dumps(v[0].get("variant"), sort_keys=True)) == fk and v[2] for v in violations):
-                continue
-            case, outcome, bad = b["violations"][0]
+                break
             spec = REGISTRY[b["qual"]]
             ridx += 1
             o = dict(name="%s/bounded:%s" % (vname(b["qual"], b.get("variant")), ",".join(n for n, p in bad)), clause=bad[0][0],
                      status="refuted", props=[pid], function=b["qual"], variant=b.get("variant"), kind="bounded", reason="bounded stand-in")
             path = write_replay(pid, ridx, spec, b.get("variant"), o, case, outcome, [n for n, p in bad], True)
             violations.append((o, path, True, case, [n for n, p in bad]))
+            break
 
-    # ------------------------------------------------------------------ known findings
     lines = []
     real = []
+    for hit in known_hits:
+        lines.append("KNOWN-FINDING: property=%s %s" % (pid, hit.split(None, 1)[1]))
     # one report per function: a reproduced witness stands for the function's other refuted obligations
     byfn = {}
     for v in violations:
         k = (v[0].get("function") or v[0].get("name"), json.dumps(v[0].get("variant"), sort_keys=True))
         if k not in byfn or (v[2] and not byfn[k][2]):
             byfn[k] = v
-    violations = list(byfn.values())
-    for (o, path, reproduced, case, failed) in violations:
-        ident = "%s %s" % (o["name"], json.dumps(case["params"]) if case and "params" in case else "")
-        hit = None
-        for f in findings:
-            parts = f.split(None, 2)
-            if parts and parts[0] == "property=%s" % pid and len(parts) >= 2 and parts[1] in o["name"]:
-                if len(parts) < 3 or (case and parts[2] in json.dumps(case.get("params", case))):
-                    hit = f
-                    break
-        if hit:
-            known_hits.append(hit)
-            lines.append("KNOWN-FINDING: property=%s %s" % (pid, hit.split(None, 1)[1]))
-        else:
-            real.append((o, path, reproduced))
-            lines.append("VIOLATION property=%s replay=%s%s" % (pid, os.path.relpath(path, ROOT), "" if reproduced else " no-failing-input-found"))
+    for (o, path, reproduced, case, failed) in byfn.values():
+        real.append((o, path, reproduced))
+        lines.append("VIOLATION property=%s replay=%s%s" % (pid, os.path.relpath(path, ROOT), "" if reproduced else " no-failing-input-found"))
 
     # ------------------------------------------------------------------ evidence
     functions = sorted({vname(q, v) for q, v in tasks})
